@@ -1,4 +1,6 @@
-(* Extraction of the executable free-list machine (C19).  ExtrOcamlBasic only. *)
-From Coq Require Import List Extraction ExtrOcamlBasic.
+(* Extraction of the executable free-list machine (C19).  ExtrOcamlBasic only.
+   (BinInt.Z.of_nat is extracted only because lib/zutil.ml expects the BinNums module to exist.) *)
+From Coq Require Import List ZArith Extraction ExtrOcamlBasic.
 From C19 Require Treiber.
-Separate Extraction Treiber.step Treiber.run Treiber.init Treiber.walk Treiber.held Treiber.dpc_kind Treiber.opc_kind.
+Separate Extraction Treiber.step Treiber.run Treiber.init Treiber.walk Treiber.held Treiber.dpc_kind Treiber.opc_kind
+  BinInt.Z.of_nat.
